@@ -215,6 +215,9 @@ def fires(summary, event, env) -> bool:
 # methods) are followed through their own summaries.  Side effects are not modelled: a summary that stores into something, or whose
 # terms mention loop-carried state, is outside the fragment (`Unknown`).
 
+_MISSING = object()
+
+
 class ModelRaise(Exception):
     def __init__(self, name):
         super().__init__(name)
@@ -570,6 +573,17 @@ class Machine:
                 if self.ev(e.live, env, ms):
                     rec.fields[tgt[2]] = self.ev(e.term[2], env, ms)
 
+    def _class_attr(self, ci, name):
+        """a class-level constant (`cap = 1.0`) along the MRO"""
+        import ast as _ast
+        for c in ci.mro():
+            for st in c.node.body:
+                tg = st.targets if isinstance(st, _ast.Assign) else ([st.target] if isinstance(st, _ast.AnnAssign) and st.value is not None else [])
+                if any(isinstance(t_, _ast.Name) and t_.id == name for t_ in tg):
+                    from .sym import Evaluator, TRUE
+                    return self.ev(Evaluator(self.index, c.module, st.value, f"{c.qual}.<attr>", None).ev(st.value, TRUE), {}, None)
+        return _MISSING
+
     def _getattr(self, base, name):
         if isinstance(base, _ClassRef):
             import ast as _ast
@@ -585,10 +599,16 @@ class Machine:
                 if "classmethod" in decos:
                     return lambda *a, **kw: self.apply_summary(ms, list(a), kw, {}, selfval=base)
                 return lambda inst, *a, **kw: self.apply_summary(ms, list(a), kw, {}, selfval=inst)
+            cv = self._class_attr(base.ci, name)
+            if cv is not _MISSING:
+                return cv
             raise Unknown(f"attribute {name} of class {base.ci.name}")
         if isinstance(base, _Record):
             if name in base.fields:
                 return base.fields[name]
+            cv = self._class_attr(base.ci, name) if not base.ci.find_method(name) else _MISSING
+            if cv is not _MISSING:
+                return cv
             found = base.ci.find_method(name)
             if found:
                 import ast as _ast
@@ -665,6 +685,8 @@ def _structural(t, ev, env):
         return t[1]
     if k == "sub":
         base, idx = ev(t[1]), ev(t[2])
+        if hasattr(base, "__next__"):
+            base = list(base)  # the engine writes the unpacking of zip(...) / map(...) as subscripts of it
         try:
             return base[idx]
         except (KeyError, IndexError, TypeError) as e:
